@@ -225,7 +225,7 @@ def load_records(scratch, sub_name):
     return np.concatenate(bufs)
 
 
-def find_pairs(rec, max_pairs=2000):
+def find_pairs(rec, max_pairs=500):
     """Return (collisions, splits, stats): index pairs (i, j).
 
     collision: same e, different v.   split: same v, different e.
